@@ -127,7 +127,16 @@ def bane_env(ctx, shape, prop):
     def m_isfinite(c, x):
         if isinstance(x, Rows):
             return Rows(x.owner, x.r0, x.r1, x.c0, x.c1, kind='finite')
+        if isinstance(x, Obj) and x.cls == 'vals':
+            # which grid nodes are finite depends on the pixel values
+            return Rows('vals', 0, 1, 0, 1, kind='finite')
         return lib.m_isfinite(c, x)
+
+    def m_any_all(c, x, **kw):
+        # a reduction over pixel values: either answer is possible, whatever the stripe
+        if isinstance(x, Rows):
+            return c.free_branch()
+        raise Undecided("np.any / np.all of %r" % (x,))
 
     def m_isnan(c, x):
         if isinstance(x, Rows):
@@ -206,7 +215,8 @@ def bane_env(ctx, shape, prop):
             raise Undecided("barrier." + name)
     np_ = lib.std_np(squeeze=Model(lambda c, x: x), ravel=Model(lambda c, x: x), isfinite=Model(m_isfinite), isnan=Model(m_isnan),
                      mgrid=MGrid(),
-                     zeros=Model(m_zeros), ndarray=Model(m_ndarray), array=Model(lambda c, x, **k: x))
+                     zeros=Model(m_zeros), ndarray=Model(m_ndarray), array=Model(lambda c, x, **k: x),
+                     any=Model(m_any_all), all=Model(m_any_all))
     g = {'np': np_, 'fits': Namespace('fits', getheader=Model(lambda c, fn, **k: hdr), open=Model(m_open)),
          'SharedMemory': Model(m_shm), 'RegularGridInterpolator': Model(m_rgi), 'sigmaclip': Model(m_sigmaclip),
          'barrier': Barrier(), 'memory_id': 'MEMID', 'logging': Namespace('logging'), 'strftime': Model(lambda c, *a: "t"),
